@@ -740,6 +740,12 @@ M("benign-rename-private-pre", ["C01", "C02", "C03", "C05", "C08", "C09", "C10",
 M("benign-rename-private-classes", ["C03", "C06", "C07", "C20"],
   [(CLS, "__or(", "__union(", 0), (CLS, "__sub(", "__difference(", 0)], expect="silent")
 
+M("benign-rename-private-fields-classes", ["C03", "C06", "C07", "C20"],
+  [(CLS, "__verbose", "__long_form", 0), (CLS, "__is_negated", "__negated", 0), (CLS, "self.__is_global", "self.__everywhere", 0)], expect="silent")
+M("benign-rename-private-fields-pre", ["C01", "C02", "C04", "C05", "C08", "C09", "C10", "C11", "C20"],
+  [(PRE, "self.__type", "self.__kind", 0), (PRE, "self.__repeatable", "self.__may_repeat", 0), (PRE, "self.__pattern", "self.__text", 0),
+   (PRE, "self.__compiled", "self.__engine", 0)], expect="silent")
+
 # ---- caches: a correct cache on a pure function with immutable results is not a violation; one that hands out a mutable object is
 M("benign-lru-cache-on-classifier", ["C20", "C09", "C02"], [(PRE, "import re as _re\n", "import re as _re\nimport functools as _functools\n", 1),
    (PRE, "    @staticmethod\n    def __infer_type(", "    @staticmethod\n    @_functools.lru_cache(maxsize=None)\n    def __infer_type(")], expect="silent")
@@ -755,5 +761,11 @@ M("benign-memo-of-static-suffix", ["C20", "C04"], [(PRE, _EX_OLD,
    "            if n not in __class__._exact_memo:\n                __class__._exact_memo[n] = __class__._exact_suffix(n)\n"
    "            return __class__(f\"{self._quantify_conditional_group()}{__class__._exact_memo[n]}\", escape=False)\n\n"
    "    _exact_memo: dict = {}\n\n    @staticmethod\n    def _exact_suffix(n: int) -> str:\n        return \"{\" + str(n) + \"}\"\n\n\n    def at_least(self")], expect="silent")
+M("sig-word-bounds-swapped", ["C17", "C03"], [(ESS, "    def __init__(self, min_chars: int = 1, max_chars: _Optional[int] = None,",
+   "    def __init__(self, max_chars: _Optional[int] = None, min_chars: int = 1,")], rule="R-SIGNATURE")
+M("benign-sig-word-trailing-optional", ["C17", "C03"], [(ESS, "    def __init__(self, min_chars: int = 1, max_chars: _Optional[int] = None,\n        is_global: bool = True, is_extensible: bool = False)",
+   "    def __init__(self, min_chars: int = 1, max_chars: _Optional[int] = None,\n        is_global: bool = True, is_extensible: bool = False, _reserved: object = None)")], expect="silent")
+M("c20-reinit-method", ["C20"], [(PRE, "    @staticmethod\n    def purge() -> None:",
+   "    def reset(self, pattern: str) -> 'Pregex':\n        self.__init__(pattern)\n        return self\n\n\n    @staticmethod\n    def purge() -> None:")], rule="R-WRITEONCE")
 M("c20-lossy-memo-on-classifier", ["C20"], [(PRE, "    @staticmethod\n    def __infer_type(pattern: str) -> tuple[_Type, bool]:\n",
    "    __memo: dict = {}\n\n    @staticmethod\n    def __infer_type(pattern: str) -> tuple[_Type, bool]:\n        key = pattern.lower()\n        if key not in __class__.__memo:\n            __class__.__memo[key] = __class__.__infer_type_uncached(pattern)\n        return __class__.__memo[key]\n\n    @staticmethod\n    def __infer_type_uncached(pattern: str) -> tuple[_Type, bool]:\n")], rule="R-NOSHARED")
